@@ -37,6 +37,7 @@ Proof.
     [split; reflexivity|].
   destruct (match sec_group (g_sec g) with Some u => negb (node_gid n =? u) | None => false end);
     [split; reflexivity|].
+  destruct (perm_refusal (g_sec g) t p n); [split; reflexivity|].
   destruct (match cb with Some f => (f p, [EvCheck p (f p)]) | None => (true, []) end) as [ok evs].
   destruct (negb ok); [split; reflexivity|].
   destruct (fs_slurp 8 t p) as [content|]; [|split; reflexivity].
@@ -349,6 +350,10 @@ Proof.
   - (* WSec *)
     cbn [fst snd w_store w_tree w_g w_cb global_setter].
     repeat split; try reflexivity; try apply H; try discriminate.
+  - (* WPerms *)
+    cbn [fst snd w_store w_tree w_g w_cb global_setter g_sec g_conf_dirs].
+    destruct H as [Hs Hc]. unfold settings_eq. cbn [g_sec g_conf_dirs]. rewrite Hs, Hc.
+    repeat split; try reflexivity; try discriminate.
   - (* WConfDirs *)
     cbn [fst snd w_store w_tree w_g w_cb global_setter].
     repeat split; try reflexivity; try apply H; try discriminate.
